@@ -17,7 +17,7 @@ alternating text chunks (str) and tags.  A tag is a tuple
 l / r (ol, or_, cl, cr) are the whitespace-control modifiers "", "-" or "+"
 written directly inside the delimiters.
 
-R-ws (`cuts`, `expected`, `layout`) works on the skeleton, never on source
+R-ws (`cut`, `layout`, `expected`, `removed_spans`) works on the skeleton, never on source
 text.  It is written from docs/templates.rst "Whitespace Control" and the
 `trim_blocks` / `lstrip_blocks` / `keep_trailing_newline` entries of the
 Environment docstring:
